@@ -13,7 +13,10 @@ RULE = ('cases = corpus + generated chunked encodings (payload 0..60 bytes, rand
         'per-digit case with 0..3 leading zeros, extensions made of ; = CR LF(not after CR) and text, trailers / junk '
         'after the last-chunk line), buffer = longest size line + {0,1,7,64} or smaller (size line longer than the '
         'buffer: rejected by design), fragmentation schedules (full, 1-byte, random short reads), through '
-        '_body_read(chunked=True) and through Ombott.__call__ (status 200/400/413, Request.body); the malformed '
+        '_body_read(chunked=True) and through Ombott.__call__ (status 200/400/413, Request.body; 60% of the WSGI '
+        'cases ALSO carry a CONTENT_LENGTH in {0, small, payload length, raw length, larger} and a Transfer-Encoding '
+        'spelled chunked/Chunked/CHUNKED/"gzip, chunked", for legal and truncated encodings; the model side runs the '
+        '_body glue body_read_env); the malformed '
         'stream takes strict prefixes (cut in size line / payload / terminator / at chunk start), corrupted data '
         'terminators and single-byte substitutions of framing bytes of the same encodings, plus random bytes; '
         'kind=hex cases compare int(b.strip(),16) with lib/PyIntHex.v on numeral-like byte strings. thorough: every '
@@ -86,9 +89,13 @@ def gen_sched(rng, n):
     return [rng.choice([0, 0, 1, 2, 3, 7, 20]) for _ in range(rng.randrange(1, n + 8))]
 
 
-def mk(enc, data, buf, sched, expect, note, via='func', maxb=None, payload=None):
+def mk(enc, data, buf, sched, expect, note, via='func', maxb=None, payload=None, cl=None, te=None):
     c = dict(kind='dec', data=list(data), buf=buf, sched=sched, maxb=maxb, via=via, expect=expect, note=note,
              nchunks=enc['nchunks'] if enc else 0)
+    if via == 'wsgi':
+        # the request's own headers: CONTENT_LENGTH (None = absent) next to Transfer-Encoding
+        c['cl'] = cl
+        c['te'] = 'chunked' if te is None else te
     if expect == 'exact':
         c['payload'] = list(enc['payload'] if payload is None else payload)
     return c
@@ -118,8 +125,26 @@ def gen_dec(rng):
     if r < 0.06 and enc['maxline'] > 3:
         buf = rng.randrange(1, enc['maxline'])
     sched = gen_sched(rng, len(data))
-    via = 'wsgi' if rng.random() < 0.3 else 'func'
+    via = 'wsgi' if rng.random() < 0.4 else 'func'
+    hdr = {}
+    if via == 'wsgi' and rng.random() < 0.6:
+        # a chunked request that ALSO carries a Content-Length: the transfer coding wins
+        hdr = dict(cl=rng.choice([0, 0, 1, 3, len(enc['payload']), len(data), len(data), len(data) + 5,
+                                  rng.randrange(0, len(data) + 2)]),
+                   te=rng.choice(['chunked', 'chunked', 'Chunked', 'CHUNKED', 'gzip, chunked']))
     r = rng.random()
+    if hdr:
+        # legal and truncated encodings only: the oracle's expectation does not depend on the headers
+        if r < 0.5:
+            return mk(enc, data, buf, sched, expect_for(enc, buf), 'legal', via, **hdr)
+        cut = rng.randrange(0, enc['last_end']) if rng.random() < 0.7 else rng.choice(
+            [t for t in enc['terms']] + [a for a, b in enc['lines']])
+        hdr['cl'] = rng.choice([hdr['cl'], cut, 0])
+        return mk(enc, data[:cut], buf, sched, expect_for(enc, buf, cut), 'prefix', via, **hdr)
+    if via == 'wsgi' and rng.random() < 0.05:
+        # no chunked coding at all: the Content-Length loop (correspondence only)
+        return mk(enc, data, buf, sched, 'any', 'not-chunked', via, cl=rng.choice([0, 3, len(data)]),
+                  te=rng.choice(['identity', '', 'chunke']))
     if r < 0.38:
         return mk(enc, data, buf, sched, expect_for(enc, buf), 'legal', via)
     if r < 0.62:
@@ -196,6 +221,17 @@ def corpus():
     out.append(mk(dict(nchunks=1, payload=b'abc'), b'003;a=\r;\n\r\r\nabc\r\n00;x\r\n\r\n', 12, [0, 1] * 20, 'exact', 'legal'))
     out.append(mk(dict(nchunks=2, payload=bytes(range(27))), b'1B\r\n' + bytes(range(27)) + b'\r\n0\r\n', 4, [4, 0, 2] * 9,
                   'exact', 'legal'))
+    # chunked requests that also carry a Content-Length (0, small, the raw length, larger): still de-chunked,
+    # and a truncated one is still refused (seeded change C05/change1: "chunked and content_length < 0")
+    for cl in (0, 3, 8, len(legal), len(legal) + 5):
+        out.append(mk(dict(nchunks=1, payload=b'abcdefgh'), legal, 8, [], 'exact', 'legal', 'wsgi', cl=cl))
+        out.append(mk(dict(nchunks=1, payload=b'abcdefgh'), legal, 8, [0, 2, 1] * 9, 'exact', 'legal', 'wsgi', cl=cl,
+                      te='gzip, Chunked'))
+    for cl in (0, 3, 6, len(trunc), len(trunc) + 5):
+        out.append(mk(dict(nchunks=1), trunc, 8, [], 'reject', 'prefix', 'wsgi', cl=cl))
+        out.append(mk(dict(nchunks=1), b'3\r\nabc', 8, [], 'reject', 'prefix', 'wsgi', cl=cl))
+    out.append(mk(dict(nchunks=0), b'', 4, [], 'reject', 'prefix', 'wsgi', cl=0))
+    out.append(mk(dict(nchunks=1), legal, 8, [], 'any', 'not-chunked', 'wsgi', cl=len(legal), te='identity'))
     # numerals Python accepts beyond plain hex digits (sign, 0x, underscores, surrounding blanks): 'any'
     for line in (b'0x3', b'+3', b'0_3', b' 3 ', b'\n3', b'-3', b'-0', b'0x_3', b'3_', b'0x', b'', b'1\n2'):
         out.append(mk(dict(nchunks=1), line + b'\r\nabc\r\n0\r\n\r\n', 8, [], 'any', 'subst'))
@@ -220,6 +256,11 @@ def thorough():
             for sched in ([], [0] * (len(data) + 4), gen_sched(rng, len(data))):
                 for cut in range(len(data)):
                     yield mk(enc, data[:cut], buf, sched, expect_for(enc, buf, cut), 'prefix')
+        if _ < 12:
+            for cl in (0, 2, len(data)):
+                for cut in range(len(data) + 1):
+                    yield mk(enc, data[:cut], enc['maxline'], [], expect_for(enc, enc['maxline'], cut),
+                             'prefix' if cut < len(data) else 'legal', 'wsgi', cl=cl)
         buf = enc['maxline'] + 1
         terms = set(enc['terms']) | set(t + 1 for t in enc['terms'])
         for t in framing_positions(enc):
@@ -266,7 +307,11 @@ def run_impl(case):
         seen['stable'] = c1 == c2
         return c1
     app.route('/b', method='POST', callback=handler)
-    env = environ('POST', '/b', **{'wsgi.input': st, 'HTTP_TRANSFER_ENCODING': 'chunked'})
+    env = environ('POST', '/b', **{'wsgi.input': st})
+    if case.get('te', 'chunked'):
+        env['HTTP_TRANSFER_ENCODING'] = case.get('te', 'chunked')
+    if case.get('cl') is not None:
+        env['CONTENT_LENGTH'] = str(case['cl'])
     out = {}
 
     def start_response(status, headers, exc_info=None):
@@ -286,6 +331,12 @@ def run_impl(case):
 def encode(case):
     if case['kind'] == 'hex':
         return [1] + enc_str(case['b'])
+    if case['via'] == 'wsgi':
+        # through the _body glue: Transfer-Encoding value and content_length (-1 = header absent)
+        cl = -1 if case.get('cl') is None else case['cl']
+        return ([2, cl, case['buf'], 0 if case['maxb'] is None else 1, case['maxb'] or 0]
+                + enc_str(case.get('te', 'chunked').encode('latin1')) + enc_str(case['data'])
+                + enc_list(case['sched'], lambda k: [k]))
     return ([0, case['buf'], 0 if case['maxb'] is None else 1, case['maxb'] or 0]
             + enc_str(case['data']) + enc_list(case['sched'], lambda k: [k]))
 
@@ -342,7 +393,8 @@ def oracle(case, obs):
         if st == 'ok':
             return '%s accepted as a complete body of %d bytes' % (
                 {'prefix': 'truncated encoding', 'badterm': 'chunk data not followed by CRLF',
-                 'legal': 'size line longer than the buffer'}.get(case['note'], case['note']), len(obs['body']))
+                 'legal': 'size line longer than the buffer'}.get(case['note'], case['note']), len(obs['body'])) + (
+                ' (request also carried Content-Length: %s)' % case['cl'] if case.get('cl') is not None else '')
     return None
 
 
@@ -360,13 +412,14 @@ def key(case):
     if case['kind'] == 'hex':
         return ('hex', tuple(case['b']))
     return (tuple(case['data'][:80]), len(case['data']), case['buf'], tuple(case['sched'][:8]), case['via'],
-            case['maxb'])
+            case['maxb'], case.get('cl'), case.get('te'))
 
 
 def classify(case, obs):
     if case['kind'] == 'hex':
         return 'hex/%s' % ('value' if obs.get('value') is not None else 'ValueError')
-    return '%s/%s/%s/%s/%s' % (case['via'], case['note'], case['expect'],
+    via = case['via'] + ('+CL' if case.get('cl') is not None else '')
+    return '%s/%s/%s/%s/%s' % (via, case['note'], case['expect'],
                                'sched' if case['sched'] else 'full-reads', obs.get('status'))
 
 
